@@ -388,7 +388,8 @@ func runC18(r *core.Run) (bool, string) {
 		"prior state of the -out target (prior_state_* keys): for further plain directories × {-go, -coq} × {absent, empty, identical, longer / shorter / same-length real outputs of test_gen on edited versions of the same package (functions added, removed, renamed, failing_ toggled), garbage longer / shorter, trailing newline, output of the other mode, read-only file, symlink, stdout}, " +
 		"plus three edits in a row regenerated into the same two files (the Go one inside the package directory, compiled at the end): after an exit 0 the file must equal byte for byte a generation into a new file, whose test list is itself compared with go/parser; distinct by (state, mode, package[, step]); " +
 		"where -out points and what it is called (out_name_* keys): 6 locations (other directory, sub-directory of the package, the package directory; absolute and relative paths) × 10 base-name classes (names of the package's own source / non-Go files, the conventional _test.go names, swapped extensions, new names) × {-go, -coq} on private copies of further plain directories: the file must equal the stdout of the same generation and no other file of the package may change (in-package targets that are themselves sources are only recorded); " +
-		"kind of directory entry (entry_kind_* keys): one special entry per directory (regular / read-only file, symlinks to files outside and inside the directory, through a second link, named _test.go, directory and symlink-to-directory named x.go, dangling symlink); expected tests = go/parser over exactly the GoFiles that `go list -json` reports; directories go list rejects are skipped")
+		"kind of directory entry (entry_kind_* keys): one special entry per directory (regular / read-only file, symlinks to files outside and inside the directory, through a second link, named _test.go, directory and symlink-to-directory named x.go, dangling symlink); expected tests = go/parser over exactly the GoFiles that `go list -json` reports; directories go list rejects are skipped; " +
+		"spelling of the package path (path_spelling_* keys): the same directory written 14 ways (absolute, relative, ./, ., ../, trailing and doubled slashes, /., /../, symlinks to it and to its parent) and identical copies under names with a space, brackets, *, ?, backslash, braces, quotes, $, unicode, a leading dash or dot, dots, Go-file-like names, 200-byte names, 1500-byte paths, glob characters in a parent (each glob-like name next to decoy packages the pattern would match): outputs must equal those for the copy under a plain absolute path")
 	r.Assume("go/parser and the Go compiler agree with the language specification on what a top-level function is")
 	r.Assume("a function named exactly `test` or `failing_test` is read as outside \"named test…\"; its treatment is only noted")
 	tg, err := r.BuildTestGen()
@@ -397,11 +398,14 @@ func runC18(r *core.Run) (bool, string) {
 		fmt.Fprintln(os.Stderr, err)
 		return false, "test_gen could not be built: " + err.Error()
 	}
-	if sig := replaySig(r.Replay); strings.HasPrefix(sig, c18OutNameSig) || strings.HasPrefix(sig, c18EntrySig) {
-		// both workloads are functions of the seed only
-		if strings.HasPrefix(sig, c18OutNameSig) {
+	if sig := replaySig(r.Replay); strings.HasPrefix(sig, c18OutNameSig) || strings.HasPrefix(sig, c18EntrySig) || strings.HasPrefix(sig, c18PathSig) {
+		// these workloads are functions of the seed only
+		switch {
+		case strings.HasPrefix(sig, c18OutNameSig):
 			c18OutNames(r, tg)
-		} else {
+		case strings.HasPrefix(sig, c18PathSig):
+			c18PathSpellings(r, tg)
+		default:
 			c18EntryKindsWorkload(r, tg)
 		}
 		return r.Evals() > 0, "the replayed workload could not be run"
@@ -655,6 +659,9 @@ func runC18(r *core.Run) (bool, string) {
 		t = time.Now()
 		c18EntryKindsWorkload(r, tg)
 		phase["entry_kind"] = time.Since(t).Seconds()
+		t = time.Now()
+		c18PathSpellings(r, tg)
+		phase["path_spelling"] = time.Since(t).Seconds()
 		r.Set("workload_wall_s", phase)
 	}
 
@@ -675,6 +682,9 @@ func runC18(r *core.Run) (bool, string) {
 	}
 	if r.GetCount("expected_tests_total") < 20 {
 		return false, "too few test functions in the generated directories"
+	}
+	if r.NumViolations() == 0 && r.GetCount("path_spelling_outputs_compared_with_plain_copy") < 40 {
+		return false, "package-path spelling workload: fewer than 40 outputs compared with the plain-named copy"
 	}
 	if r.NumViolations() == 0 && (r.GetCount("out_name_files_compared_with_stdout") < 50 || r.GetCount("entry_kind_go_files_compiled_ok") < 5) {
 		return false, "-out location/name workload: fewer than 50 files compared with stdout, or entry-kind workload: fewer than 5 directories judged and compiled"
